@@ -25,6 +25,7 @@ func Run(c *hx.Ctx) {
 	random(c)
 	correspondence(c)
 	imgRdFamilies(c) // reading side over image bytes (imgrd.go)
+	imgWrFamilies(c) // writing side down to the bytes (imgwr.go)
 }
 
 type caseOut struct {
